@@ -61,6 +61,9 @@ def harmed(root, model):
             out.append((k, 'unreadable' if got is None else 'different bytes'))
         elif row is not None and row.size != len(content):
             out.append((k, f'recorded size {row.size} != {len(content)}'))
+        elif row is not None and row.compressed and k in raw.loose and raw.loose[k] != content:
+            # the loose copy of a compressed packed object is what a seeking stream switches to (LazyLooseStream / loosen_object)
+            out.append((k, 'different bytes through a seeking stream (damaged re-loosened copy of a compressed object)'))
     return out
 
 
